@@ -77,5 +77,7 @@ pub mod c11;
 pub mod c13;
 #[cfg(kani)]
 pub mod c14;
+pub mod c15;
+pub mod c16;
 pub mod c19;
 pub mod gen_c20;
